@@ -76,3 +76,67 @@ def agg_sites(fn, path_suffix, variant=None):
         if rv['r'] == 'agg' and rv['kind'].get('k') == 'adt' and rv['kind']['path'].endswith(path_suffix):
             if variant is None or rv['kind']['variant'] == variant:
                 yield bi, st, fn.rvalue_expr(rv, bi)
+
+
+def player_ctx(c):
+    """context selector: player-number switches and const-generic bool switches"""
+    if c['kind'] == 'variant' and set(c['variants']) <= {'One', 'Two'} and len(c['variants']) == 1:
+        return ('num', c['variants'][0])
+    if c['kind'] == 'bool' and c['a'][0] == 'cparam':
+        return (c['a'][1], c['truth'])
+    return None
+
+
+def tags(e):
+    """per-player array positions an expression is read from (constant indices into [T; 2])"""
+    out = set()
+    for s in walk(e):
+        if s[0] == 'cidx' and not s[3]:
+            out.add(s[2])
+        elif s[0] == 'index' and s[2][0] == 'const' and s[2][1] is not None and str(s[2][1]).isdigit():
+            out.add(int(s[2][1]))
+    return out
+
+
+def parent_agg(crate, cf):
+    """(parent Fn, closure aggregate expression) of a closure"""
+    pname = cf.name.rsplit('::{closure#', 1)[0]
+    parent = crate.fns.get(pname)
+    if parent is None:
+        return None, None
+    for bi, si, st in parent.assigns():
+        rv = st['rv']
+        if rv['r'] == 'agg' and rv['kind'].get('k') == 'closure' and rv['kind']['path'] == cf.name:
+            return parent, parent.rvalue_expr(rv, bi)
+    return parent, None
+
+
+def subst_upvars(crate, cf, e):
+    """replace captured variables by the parent's captured operands (one level)"""
+    parent, agg = parent_agg(crate, cf)
+    if agg is None:
+        return e
+
+    def go(x):
+        if x[0] == 'upvar' and x[1] < len(agg[2]):
+            return agg[2][x[1]]
+        if x[0] in ('field', 'downcast'):
+            return (x[0], go(x[1]), x[2])
+        if x[0] in ('deref', 'ref', 'subslice'):
+            return (x[0], go(x[1]))
+        if x[0] == 'cast':
+            return (x[0], go(x[1]), x[2])
+        if x[0] == 'index':
+            return (x[0], go(x[1]), go(x[2]))
+        if x[0] == 'cidx':
+            return (x[0], go(x[1]), x[2], x[3])
+        if x[0] in ('call',):
+            return (x[0], x[1], tuple(go(a) for a in x[2]), x[3])
+        if x[0] == 'agg':
+            return (x[0], x[1], tuple(go(a) for a in x[2]))
+        if x[0] == 'bin':
+            return (x[0], x[1], go(x[2]), go(x[3]))
+        if x[0] == 'un':
+            return (x[0], x[1], go(x[2]))
+        return x
+    return go(e)
